@@ -114,6 +114,8 @@ fn run_invalid<T: Tbl>(ev: &Ev) -> String {
             format!("{:?} {:?}", c0.t_blocks(), c1.t_blocks())
         }
         "from_cofactors" => format!("{:?}", T::t_from_cofactors(&a, &b, bad).t_blocks()),
+        // one object as both cofactors (shortcuts keyed on pointer equality must not skip the index check)
+        "from_cofactors(aliased)" => format!("{:?}", T::t_from_cofactors(&a, &a, bad).t_blocks()),
         "top_decomposition" => format!("{:?}", a.t_top_decomposition(bad)),
         "is_pos_unate" => format!("{}", a.t_is_pos_unate(bad)),
         "is_neg_unate" => format!("{}", a.t_is_neg_unate(bad)),
@@ -208,9 +210,9 @@ fn replay(ctx: &mut Ctx, ev: &Ev) {
     }
 }
 
-const INDEX_OPS: [&str; 20] = [
+const INDEX_OPS: [&str; 21] = [
     "nth_var", "flip", "flip_inplace", "swap(bad,ok)", "swap(ok,bad)", "swap(bad,bad)", "swap_inplace(bad,ok)",
-    "swap_inplace(ok,bad)", "swap_adjacent", "swap_adjacent_inplace", "cofactors", "from_cofactors",
+    "swap_inplace(ok,bad)", "swap_adjacent", "swap_adjacent_inplace", "cofactors", "from_cofactors", "from_cofactors(aliased)",
     "top_decomposition", "is_pos_unate", "is_neg_unate", "value", "get_bit", "set_bit", "unset_bit", "set_value(true)",
 ];
 
